@@ -181,21 +181,36 @@ def run(m: Model, r: Report, tier: str) -> None:
     r.check(bool(concrete) and not uncovered, "R3", f"{sa.qualname}#exhaustive",
             f"request classes {uncovered} are not answered (the handler raises / does not know them: the connection would be dropped)", loc=sa.loc)
     rad = m.require_function(f"{SRV}.RandomUDSServer.respond_after_default")
-    falls = isinstance(rad.node.body[-1], ast.Return) and ast.unparse(rad.node.body[-1].value) == "None"
-    r.check(falls, "R3", f"{rad.qualname}#fallthrough", "requests no handler claims must fall through to generalReject (return None), not raise", loc=rad.loc)
-    # handlers are only called under an isinstance test of their parameter type
-    for st in rad.node.body:
-        if isinstance(st, ast.If) and isinstance(st.test, ast.Call) and ast.unparse(st.test.func) == "isinstance":
-            t = m.annotation_classes(rad.module, st.test.args[1], rad.cls)
-            call = next((x for x in ast.walk(st) if isinstance(x, ast.Call) and isinstance(x.func, ast.Attribute) and ast.unparse(x.func.value) == "self"), None)
-            if call is None or not t:
-                continue
-            h = rs.methods.get(call.func.attr)
-            if h is None:
-                continue
-            want = m.annotation_classes(h.module, h.param_annotations().get("request"), h.cls)
-            r.check(bool(want) and all(m.is_subclass(t[0], w) for w in want), "R3", f"{rad.qualname}#dispatch:{h.name}",
-                    f"{h.name} expects {[w.name for w in want]} but is called for {t[0].name}", loc=rad.loc)
+    # the dispatch on the request's class: an isinstance chain or a match statement (one view through sa/dispatch.py)
+    from sa import dispatch as _dp14
+    rpar14 = rad.params()[1] if len(rad.params()) > 1 else "request"
+    arms14 = _dp14.arms(rad.node, rpar14)
+    if arms14 is None:
+        r.unrecognised("R3", f"{rad.qualname}#fallthrough", "the dispatch on the request class (isinstance chain / match) was not recognised", rad.loc)
+    else:
+        dflt14 = _dp14.default_arm(arms14)
+        tail_ = dflt14.body if dflt14 is not None else rad.node.body
+        falls = bool(tail_) and isinstance(tail_[-1], ast.Return) and tail_[-1].value is not None and ast.unparse(tail_[-1].value) == "None" \
+            and not any(isinstance(n, ast.Raise) for n in ast.walk(rad.node))
+        r.check(falls, "R3", f"{rad.qualname}#fallthrough", "requests no handler claims must fall through to generalReject (return None), not raise", loc=rad.loc)
+        # handlers are only called under a test of their parameter type
+        for arm in arms14:
+            for pat in arm.patterns:
+                if not pat.endswith("()"):
+                    continue
+                try:
+                    t = m.annotation_classes(rad.module, ast.parse(pat[:-2], mode="eval").body, rad.cls)
+                except SyntaxError:
+                    t = []
+                call = next((x for st in arm.body for x in ast.walk(st) if isinstance(x, ast.Call) and isinstance(x.func, ast.Attribute) and ast.unparse(x.func.value) == "self"), None)
+                if call is None or not t:
+                    continue
+                h = rs.methods.get(call.func.attr)
+                if h is None:
+                    continue
+                want = m.annotation_classes(h.module, h.param_annotations().get("request"), h.cls)
+                r.check(bool(want) and all(m.is_subclass(t[0], w) for w in want), "R3", f"{rad.qualname}#dispatch:{h.name}",
+                        f"{h.name} expects {[w.name for w in want]} but is called for {t[0].name}", loc=rad.loc)
 
     # ---------------------------------------------------------------- R4
     chain = m.require_function(f"{SRV}.UDSServer.respond_without_state_change")
